@@ -391,3 +391,20 @@ Definition two_reads_matches (dcf rackf : N -> option N) (g : ring N) (keyspaces
             else mem h rest && pm2 rest)                                          (* other annotation: kept *)
   end.
 
+(* what every two-read plan must keep whatever the liveness change was (the viol / diff split of
+   kind L on a plan the acceptor above refused): the first target was enabled when it was chosen
+   and is permitted; every later target is enabled under the later liveness and permitted; the
+   later targets name no node twice; and the picked node is not named again unless its annotation
+   changed (it is still allowed later and moved between a replica group and a non-replica group) *)
+Definition two_reads_safe_b (dcf rackf : N -> option N) (g : ring N) (keyspaces : list (N * strategy))
+    (en1 co1 en2 co2 : N -> bool) (pol : policy) (rq : request) (p : list N) : bool :=
+  match p with
+  | [] => false
+  | h :: rest =>
+      let g1 := group_of dcf rackf g keyspaces en1 co1 pol rq h in
+      let g2 := group_of dcf rackf g keyspaces en2 co2 pol rq h in
+      en1 h && permitted dcf g pol rq h &&
+      forallb (fun n => en2 n && permitted dcf g pol rq n) rest &&
+      nodupb rest &&
+      negb (mem h rest && ((g2 <? 8)%nat && Bool.eqb (g1 <? 3)%nat (g2 <? 3)%nat))
+  end.
